@@ -106,6 +106,10 @@ Section C14.
   (* ---- AbstractStructure ---- *)
   Theorem C14_abstract : forall k, In n_Abstract (k_bases k) -> instantiable k = Raise TypeError.
   Proof. exact abstract_not_instantiable. Qed.
+
+  (* ... nor can the class AbstractStructure itself *)
+  Theorem C14_abstract_itself : forall k, k_name k = n_Abstract -> instantiable k = Raise TypeError.
+  Proof. exact abstract_itself_not_instantiable. Qed.
 End C14.
 
 Print Assumptions C14_fields_mono_step.
@@ -124,6 +128,7 @@ Print Assumptions C14_fault_keys_of.
 Print Assumptions C14_fault_unknown_attr.
 Print Assumptions C14_fault_non_typedpy.
 Print Assumptions C14_abstract.
+Print Assumptions C14_abstract_itself.
 
 (* ------------------------------------------------------------------ witnesses *)
 
@@ -194,8 +199,8 @@ Qed.
 Print Assumptions C14_required_refuted.
 
 (* non-vacuity: a three-level hierarchy with a mix-in; fields and required names accumulate;
-   the single-fault variants raise; AbstractStructure children cannot be instantiated, the class
-   AbstractStructure itself can (its __bases__ do not contain AbstractStructure) *)
+   the single-fault variants raise; neither AbstractStructure children nor the class AbstractStructure
+   itself can be instantiated, a grandchild can *)
 Example C14_nonvacuous :
   (match ex_env with
    | Some (_, c) => Some (field_names c, k_required c, k_sig_req c, k_mro c)
@@ -215,9 +220,13 @@ Example C14_nonvacuous :
   (match define T [] default_guards genv0 (stmt0 "I" [n_Immutable] [(nm "a", SDecl f_int false None None)]) with
    | Ok i => define T [] default_guards (i :: genv0) (stmt0 "J" [nm "I"] [])
    | Raise x => Raise x end) = Raise TypeError /\
-  instantiable (builtin n_Abstract) = Ok tt /\
+  instantiable (builtin n_Abstract) = Raise TypeError /\
   (match define T [] default_guards genv0 (stmt0 "Ab" [n_Abstract] [(nm "a", SDecl f_int false None None)]) with
-   | Ok k => instantiable k | Raise x => Raise x end) = Raise TypeError.
+   | Ok k => instantiable k | Raise x => Raise x end) = Raise TypeError /\
+  (match define T [] default_guards genv0 (stmt0 "Ab" [n_Abstract] [(nm "a", SDecl f_int false None None)]) with
+   | Ok k => match define T [] default_guards (k :: genv0) (stmt0 "Conc" [nm "Ab"] []) with
+             | Ok k2 => instantiable k2 | Raise x => Raise x end
+   | Raise x => Raise x end) = Ok tt.
 Proof. repeat split; vm_compute; reflexivity. Qed.
 
 (* ======================================================================================================
